@@ -9,7 +9,7 @@
    on who receives it.  [cfg0 lim pas] is the configuration without a chosencases filter
    (the filter is property C14).  [step_const] = 4. *)
 From Coq Require Import List Arith Bool.
-From PV Require Import Model.Provider Proofs.ProviderProofs.
+From PV Require Import Model.Provider Model.ProviderFile Proofs.ProviderProofs Proofs.ProviderFileProofs.
 Import ListNotations.
 
 (* Exactly min of the non-zero bounds among limit and passes*n items are delivered, and they
@@ -81,4 +81,65 @@ Example C08_examples :
   /\ out (run KGrpcJson (cfg0 3 0) [e 0; e 1] None 100) = Ok
   /\ closed (run KScenario (cfg0 0 2) [e 0; e 1] None 100) = true
   /\ ids (delivered (run KDecode (cfg0 5 2) [e 0; e 1; e 2] None 100)) = [0; 1; 2; 0; 1].
+Proof. repeat split; reflexivity. Qed.
+
+(* ---- the handle of the ammo file (Model/ProviderFile.v) --------------------------------------
+
+   "finishes without error ... the run ends successfully" is about what Provider.Run RETURNS, and
+   the http providers return the error of their deferred Close of the ammo file.  [run_file fs k]
+   is the run of [k] with the operations on the file handle replayed around it (constructor, Run
+   before the loop, every loop iteration, deferred calls), on a real file ([FsOS]: every
+   operation on a closed handle fails, Close included) or on an afero mem file ([FsMem]: Close
+   of a closed file is nil). *)
+
+(* A bounded run ends cleanly WITH the handle taken into account, on both kinds of file system:
+   Run returns nil (nothing from the loop, nothing from Close), the sink is closed, the file was
+   opened once, closed once and never touched after it was closed. *)
+Theorem C08_clean_end_file : forall (fs : fskind) (k : pkind) es lim pas b fuel,
+  es <> [] -> bound lim pas (length es) = Some b -> step_const * (b + length es + 1) < fuel ->
+  let fr := run_file fs k (cfg0 lim pas) es None fuel in
+  f_clean fr = true /\ closed (f_base fr) = true /\ acquire_after (f_base fr) = AcqEndOfAmmo
+  /\ f_construct_ok fr = true /\ h_released_once (f_handle fr) = true.
+Proof. exact c08_clean_end_file. Qed.
+Print Assumptions C08_clean_end_file.
+
+(* Every run of every provider, any configuration (filter included), any cancellation point, any
+   fuel: the handle never adds anything to Run's result, no operation is ever issued on a closed
+   handle, and when Run returns the handle has been released exactly once. *)
+Theorem C08_handle_every_run : forall (fs : fskind) (k : pkind) cf es cancel fuel,
+  let fr := run_file fs k cf es cancel fuel in
+  f_out fr = FAs (out (run k cf es cancel fuel))
+  /\ h_late (f_handle fr) = 0
+  /\ (out (run k cf es cancel fuel) <> OutOfFuel -> h_released_once (f_handle fr) = true).
+Proof. exact c08_handle_every_run. Qed.
+Print Assumptions C08_handle_every_run.
+
+(* Why it matters (and why the correspondence runs on real files too).  Take ANY provider whose
+   Run returns the error of its deferred Close and let its constructor release the handle as well:
+   on a real file no run of it ends cleanly, whatever the loop returned ... *)
+Theorem C08_close_early_not_clean_on_real_file : forall p r,
+  out r <> OutOfFuel -> fp_start p = [] -> fp_exit p = [FClose] -> fp_policy p = CloseReturned ->
+  f_clean (replay FsOS (close_early p) r) = false
+  /\ 1 <= h_late (f_handle (replay FsOS (close_early p) r)).
+Proof. exact close_early_not_clean_os. Qed.
+Print Assumptions C08_close_early_not_clean_on_real_file.
+
+(* ... while on a mem file the JSON-array provider changed that way still ends cleanly: only the
+   count of operations on a closed handle tells it from the present code. *)
+Theorem C08_close_early_invisible_on_mem_file : forall n r,
+  out r = Ok ->
+  f_clean (replay FsMem (close_early (http_plan DJsonArr n)) r) = true
+  /\ h_late (f_handle (replay FsMem (close_early (http_plan DJsonArr n)) r)) = 1.
+Proof. exact jsonarr_close_early_clean_mem. Qed.
+Print Assumptions C08_close_early_invisible_on_mem_file.
+
+(* Non-vacuity: a single-element JSON array with limit 2 on a real file ends cleanly with the
+   handle released once; with the early Close the same run fails through the deferred Close. *)
+Example C08_file_examples :
+  let e i := {| e_tag := i; e_id := i |} in
+  let fr := run_file FsOS (KHttp DJsonArr false) (cfg0 2 0) [e 0] None 100 in
+  f_out fr = FAs Ok /\ f_handle fr = {| h_open := false; h_opens := 1; h_closes := 1; h_late := 0 |}
+  /\ f_out (replay FsOS (close_early (http_plan DJsonArr 1)) (f_base fr)) = FCloseErr Ok
+  /\ f_out (run_file FsOS KGrpcJson (cfg0 0 2) [e 0; e 1] None 100) = FAs Ok
+  /\ h_released_once (f_handle (run_file FsMem KScenario (cfg0 3 0) [e 0; e 1] None 100)) = true.
 Proof. repeat split; reflexivity. Qed.
